@@ -29,6 +29,16 @@ func AddressingCorpus() []*Scenario {
 						d[p1], d[p2] = a, b
 					}
 					add(fmt.Sprintf("forward-%s=%d-%s=%d", p1, i, p2, j), "PostInbox", inbox(Alice), ap.Both, d)
+					// the application's forwarding filter: keeps the first / none, or works on the slice it
+					// is handed IN PLACE (keeps the last, compacting; keeps all, reversing)
+					for _, fm := range []ap.FilterMode{ap.FilterFirst, ap.FilterNone, ap.FilterLastInPlace, ap.FilterReverseInPlace} {
+						if i == j && fm != ap.FilterLastInPlace {
+							continue
+						}
+						fm := fm
+						s = append(s, &Scenario{Name: fmt.Sprintf("addr/forward-%s=%d-%s=%d-filter=%d", p1, i, p2, j, fm), Kind: ap.Both, Entry: "PostInbox", URL: inbox(Alice), Body: d,
+							Tweak: func(a *ap.App) { a.Filter = fm }})
+					}
 				}
 			}
 		}
